@@ -414,11 +414,15 @@ def emulate_type_inference_from_first_entry(desc, kinds):
     return out
 
 
+TWIN_SHIFT = [0.0]
+
+
 def twin_of(x):
     """an entry with the same names, configuration lists and central value but different fluctuations"""
     if is_cobs(x):
         return PE.CObs(twin_of(x.real) if is_obs(x.real) else x.real, twin_of(x.imag) if is_obs(x.imag) else x.imag)
-    return -0.5 * x + 1.5 * x.value
+    # same central value, or a shifted one (a result that remembers the central values of an earlier call is then wrong as well)
+    return -0.5 * x + 1.5 * x.value + (0.0 if TWIN_SHIFT[0] == 0 else TWIN_SHIFT[0])
 
 
 def history_check(ctx, rng, fn, arrays, op, judge=None, baseline=None):
@@ -431,6 +435,7 @@ def history_check(ctx, rng, fn, arrays, op, judge=None, baseline=None):
         return
     k, idx = cand[int(rng.integers(0, len(cand)))]
     twins = [np.array(a, copy=True) for a in arrays]
+    TWIN_SHIFT[0] = 0.0 if rng.random() < 0.5 else float(rng.choice([-0.07, 0.07]))
     twins[k][idx] = twin_of(arrays[k][idx])
     if twins[k].shape[0] == twins[k].shape[1] and arrays[k][idx[::-1]] is arrays[k][idx]:
         twins[k][idx[::-1]] = twins[k][idx]                    # keep symmetric matrices symmetric
